@@ -534,6 +534,180 @@ Definition run_roundtrip (n : Z) (R : skel) : list Z :=
   | Err k => [1; k]
   end.
 
+(* ---------- qualifier-level codecs (antiSMASH logic, strings as character codes) ---------- *)
+
+(* s.startswith(p) *)
+Fixpoint starts_with (p s : str) : bool :=
+  match p with
+  | [] => true
+  | c :: p' => match s with x :: s' => (x =? c) && starts_with p' s' | [] => false end
+  end.
+
+(* s.split(": ", 1): Some (text before the first ": ", text after it), None when there is none *)
+Fixpoint split_colon_space (s : str) : option (str * str) :=
+  match s with
+  | [] => None
+  | x :: r =>
+    match r with
+    | y :: r' => if (x =? 58) && (y =? 32) then Some ([], r')
+                 else match split_colon_space r with Some (a, b) => Some (x :: a, b) | None => None end
+    | [] => None
+    end
+  end.
+
+(* "externally annotated" (the dispatch test) and "externally annotated by: " (the written prefix) *)
+Definition ext_prefix : str :=
+  [101; 120; 116; 101; 114; 110; 97; 108; 108; 121; 32; 97; 110; 110; 111; 116; 97; 116; 101; 100].
+Definition ext_label : str := ext_prefix ++ [32; 98; 121; 58; 32].
+
+(* SideloadedSubRegion.to_biopython / SideloadedProtocluster.to_biopython:
+   qualifiers["aStool"] = [f"externally annotated by: {self.tool}"];  SubRegion / Protocluster: [self.tool] *)
+Definition astool_text (sideloaded : bool) (tool : str) : str :=
+  if sideloaded then ext_label ++ tool else tool.
+
+(* SubRegion.from_biopython / Protocluster.from_biopython on the aStool qualifier:
+     tool.startswith("externally annotated") -> Sideloaded*.from_biopython(bio_feature):
+         tool = tool.split(": ", 1)[1]            (IndexError without ": ")
+         leftovers["aStool"] = [tool]; feature = cls(..., tool, ...)
+         super().from_biopython(bio_feature, feature=feature, leftovers=leftovers):
+             the same startswith test on the recovered name -> Sideloaded*.from_biopython(bio_feature)
+             again with the original qualifiers: unbounded recursion (RecursionError, a RuntimeError)
+     otherwise the qualifier is the tool of an ordinary area.
+   Result: (is sideloaded, tool name). *)
+Definition astool_decode (text : str) : res (bool * str) :=
+  if starts_with ext_prefix text then
+    match split_colon_space text with
+    | None => Err E_Index
+    | Some (_, tool) => if starts_with ext_prefix tool then Err E_Runtime else Ok (true, tool)
+    end
+  else Ok (false, text).
+
+(* [str(n) for n in numbers] / [int(text) for text in qualifier]: protoclusters,
+   candidate_cluster_numbers, subregion_numbers *)
+Definition numbers_text (l : list Z) : list str := map str_of_int l.
+Definition numbers_parse (l : list str) : res (list Z) := mapM parse_int l.
+
+(* secmet.py: _parse_format(fmt, data) for formats made of literal text and "{}" fields.  The regular
+   expression built from the format is ^ items $ where every "{}" is (.+?) (non-greedy, "." does not
+   match a newline), every space of the format is optional ("\ ?", greedy) and "$" also matches before
+   a final newline.  pmatch is the leftmost/backtracking search of Python's re on that shape. *)
+Inductive pitem := PLit (c : Z) | POptSpace | PGroup.
+
+Definition at_end (s : str) : bool := match s with [] => true | [c] => c =? 10 | _ => false end.
+
+Fixpoint pmatch (pat : list pitem) (s : str) {struct pat} : option (list str) :=
+  match pat with
+  | [] => if at_end s then Some [] else None
+  | PLit c :: p => match s with x :: r => if x =? c then pmatch p r else None | [] => None end
+  | POptSpace :: p =>
+    match s with
+    | x :: r => if x =? 32 then match pmatch p r with Some g => Some g | None => pmatch p s end
+                else pmatch p s
+    | [] => pmatch p s
+    end
+  | PGroup :: p =>
+    (fix grp (acc : str) (s : str) {struct s} : option (list str) :=
+       match s with
+       | [] => None
+       | x :: r => if x =? 10 then None else
+                   match pmatch p r with
+                   | Some g => Some (rev (x :: acc) :: g)
+                   | None => grp (x :: acc) r
+                   end
+       end) [] s
+  end.
+
+(* a format string -> items: "{}" is a field, " " an optional space, anything else literal
+   (formats with "{{", "}}" or ":d" fields are not used by the qualifiers modelled here) *)
+Fixpoint pat_of_format (fmt : str) : list pitem :=
+  match fmt with
+  | [] => []
+  | c :: r =>
+    match r with
+    | d :: r' => if (c =? 123) && (d =? 125) then PGroup :: pat_of_format r'
+                 else if c =? 32 then POptSpace :: pat_of_format r else PLit c :: pat_of_format r
+    | [] => if c =? 32 then [POptSpace] else [PLit c]
+    end
+  end.
+
+(* "{} ({}) {}: {}" and "{} ({}) {}" *)
+Definition gf_format4 : str := [123; 125; 32; 40; 123; 125; 41; 32; 123; 125; 58; 32; 123; 125].
+Definition gf_format3 : str := [123; 125; 32; 40; 123; 125; 41; 32; 123; 125].
+(* SecMetQualifier.Domain.qualifier_label = "{} (E-value: {}, bitscore: {}, seeds: {}, tool: {})" *)
+Definition domain_format : str :=
+  [123; 125] ++ [32; 40; 69; 45; 118; 97; 108; 117; 101; 58; 32] ++ [123; 125] ++
+  [44; 32; 98; 105; 116; 115; 99; 111; 114; 101; 58; 32] ++ [123; 125] ++
+  [44; 32; 115; 101; 101; 100; 115; 58; 32] ++ [123; 125] ++ [44; 32; 116; 111; 111; 108; 58; 32] ++ [123; 125] ++ [41].
+
+Definition parse_format (fmt data : str) : res (list str) :=
+  match pmatch (pat_of_format fmt) data with Some g => Ok g | None => Err E_Value end.
+
+(* str(GeneFunction): OTHER 0, CORE 1, ADDITIONAL 2, TRANSPORT 3, REGULATORY 4, RESISTANCE 5 *)
+Definition gf_names : list (Z * str) :=
+  [(0, [111; 116; 104; 101; 114]);
+   (1, [98; 105; 111; 115; 121; 110; 116; 104; 101; 116; 105; 99]);
+   (2, [98; 105; 111; 115; 121; 110; 116; 104; 101; 116; 105; 99; 45; 97; 100; 100; 105; 116; 105; 111; 110; 97; 108]);
+   (3, [116; 114; 97; 110; 115; 112; 111; 114; 116]);
+   (4, [114; 101; 103; 117; 108; 97; 116; 111; 114; 121]);
+   (5, [114; 101; 115; 105; 115; 116; 97; 110; 99; 101])].
+Definition gf_name (f : Z) : str :=
+  match find (fun e => fst e =? f) gf_names with Some e => snd e | None => [] end.
+(* GeneFunction.from_string *)
+Definition gf_from_string (label : str) : res Z :=
+  match find (fun e => str_eqb (snd e) label) gf_names with Some e => Ok (fst e) | None => Err E_Value end.
+
+(* _GeneFunctionAnnotation *)
+Record gfa := mkGfa { gfun : Z; gtool : str; gproduct : option str; gdesc : str }.
+
+(* str.split() separators among the ASCII codes *)
+Definition is_space (c : Z) : bool := ((9 <=? c) && (c <=? 13)) || ((28 <=? c) && (c <=? 32)).
+(* len(tool.split()) *)
+Fixpoint count_tokens (in_token : bool) (s : str) : nat :=
+  match s with
+  | [] => O
+  | c :: r => if is_space c then count_tokens false r
+              else ((if in_token then 0 else 1) + count_tokens true r)%nat
+  end.
+
+(* __str__ *)
+Definition gfa_text (g : gfa) : str :=
+  gf_name (gfun g) ++ [32; 40] ++ gtool g ++ [41; 32] ++
+  match gproduct g with
+  | Some p => match p with [] => gdesc g | _ => p ++ [58; 32] ++ gdesc g end
+  | None => gdesc g
+  end.
+
+(* __init__ after GeneFunction.from_string: the asserts, then CORE needs a product *)
+Definition gfa_build (label tool desc : str) (product : option str) : res gfa :=
+  do f <- gf_from_string label;
+  match tool with
+  | [] => Err E_Assert
+  | _ => if negb (Nat.eqb (count_tokens false tool) 1) then Err E_Assert else
+         match desc with
+         | [] => Err E_Assert
+         | _ => if (f =? 1) && match product with Some (_ :: _) => false | _ => true end then Err E_Value
+                else Ok (mkGfa f tool product desc)
+         end
+  end.
+
+(* from_string: the four-field format first, the three-field format when that does not match *)
+Definition gfa_parse (text : str) : res gfa :=
+  match pmatch (pat_of_format gf_format4) text with
+  | Some [f; t; p; d] => gfa_build f t d (Some p)
+  | _ => match pmatch (pat_of_format gf_format3) text with
+         | Some [f; t; d] => gfa_build f t d None
+         | _ => Err E_Value
+         end
+  end.
+
+Definition dGfa : dec gfa := fun l =>
+  match l with
+  | f :: r => match dPair dStr (dPair (dOpt dStr) dStr) r with
+              | Some ((t, (p, d)), r') => Some (mkGfa f t p d, r') | None => None end
+  | [] => None
+  end.
+Definition eGfa (g : gfa) : list Z := gfun g :: eStr (gtool g) ++ eOpt eStr (gproduct g) ++ eStr (gdesc g).
+
 Definition run_C10 (fn : Z) (l : list Z) : list Z :=
   match fn with
   | 1 => match dTloc l with Some (t, []) => eStr (loc_str t) | _ => bad_input end
@@ -558,5 +732,15 @@ Definition run_C10 (fn : Z) (l : list Z) : list Z :=
              | _ => bad_input
              end
            | _ => bad_input end
+  | 7 => match l with
+         | side :: r => match dStr r with Some (t, []) => eStr (astool_text (negb (side =? 0)) t) | _ => bad_input end
+         | _ => bad_input end
+  | 8 => match dStr l with
+         | Some (s, []) => eRes (fun x => eBool (fst x) ++ eStr (snd x)) (astool_decode s)
+         | _ => bad_input end
+  | 9 => match dGfa l with Some (g, []) => eStr (gfa_text g) | _ => bad_input end
+  | 10 => match dStr l with Some (s, []) => eRes eGfa (gfa_parse s) | _ => bad_input end
+  | 11 => match dStr l with Some (s, []) => eRes (eList eStr) (parse_format domain_format s) | _ => bad_input end
+  | 12 => match dList dStr l with Some (ss, []) => eRes eZs (numbers_parse ss) | _ => bad_input end
   | _ => bad_input
   end.
